@@ -359,8 +359,8 @@ Proof.
     apply andb_true_iff in Hu as [Hu H4]. apply andb_true_iff in Hu as [Hu H3]. apply andb_true_iff in Hu as [H1 H2].
     pose proof (wf_lookup _ _ _ Hwf Hl) as (Hc1 & Hc2 & Hc3).
     eexists; eexists. split; [reflexivity|]. cbn [apply_op].
-    assert (Ht : ac_table (alter_reverse a) = ac_table a) by (destruct a; unfold alter_reverse; cbn; repeat (destruct (_ : option _) || destruct (_ : tri _)); reflexivity).
-    assert (Hs : ac_schema (alter_reverse a) = ac_schema a) by (destruct a; unfold alter_reverse; cbn; repeat (destruct (_ : option _) || destruct (_ : tri _)); reflexivity).
+    assert (Ht : ac_table (alter_reverse a) = ac_table a) by (destruct a as [t0 c0 s0 et es en ec mn mc ms mname mt kw0]; unfold alter_reverse; cbn; destruct mt, mn, ms, mc, mname; reflexivity).
+    assert (Hs : ac_schema (alter_reverse a) = ac_schema a) by (destruct a as [t0 c0 s0 et es en ec mn mc ms mname mt kw0]; unfold alter_reverse; cbn; destruct mt, mn, ms, mc, mname; reflexivity).
     rewrite Ht, Hs.
     assert (Hcol : ac_column (alter_reverse a) = alter_new_name a).
     { destruct a as [t0 c0 s0 et es en ec mn mc ms mname mt kw0]; unfold alter_reverse, alter_new_name; cbn.
@@ -372,10 +372,10 @@ Proof.
     { destruct a as [t0 c0 s0 et es en ec mn mc ms mname mt kw0]; destruct c as [cty cnu cde cco]; cbn in H1, H2, H3, H4.
       unfold alter_reverse, alter_attrs; cbn.
       destruct mt as [mt|]; cbn in H1; [apply decb_true in H1; subst et|];
-      destruct mn as [mn|]; cbn in H2; [apply decb_true in H2; subst en|];
-      destruct ms as [|ms]; cbn in H3; [|apply decb_true in H3; subst es];
-      destruct mc as [|mc]; cbn in H4; [|apply decb_true in H4; subst ec];
-      destruct mname; reflexivity. }
+      (destruct mn as [mn|]; cbn in H2; [apply decb_true in H2; subst en|];
+       (destruct ms as [|ms]; cbn in H3; [|apply decb_true in H3; subst es];
+        (destruct mc as [|mc]; cbn in H4; [|apply decb_true in H4; subst ec];
+         (destruct mname; reflexivity)))). }
     split; [reflexivity|]. eapply on_table_back; eauto; tsx.
     + tsx. rewrite Hcol, Hnew, lookup_put_eq, del_put by auto.
       rewrite lookup_del_eq by auto. rewrite Hattrs, put_del by auto. destruct ts; reflexivity.
@@ -423,19 +423,19 @@ Section Lists.
     - apply andb_true_iff in Hu as [Hu1 Hu2].
       destruct (step _ _ Hwf Hu1) as (x' & B & HR & Hap & Hback & HwfB).
       rewrite Hap in Hu2 |- *. destruct (IH _ HwfB Hu2) as (l' & C & HM & Hapl & Hbackl & HwfC).
-      exists (x' :: l'), C. rewrite HR, HM. cbn. repeat split; auto.
+      exists (x' :: l'), C. rewrite HR, HM. cbn. split; [reflexivity|]. split; [exact Hapl|]. split; [|exact HwfC].
       rewrite apl_app, Hbackl. cbn. rewrite Hback. reflexivity.
   Qed.
 End Lists.
 
 Lemma apl_apply_list l A : apl apply_op l A = apply_list l A.
-Proof. revert A; induction l as [|x r IH]; intros A; cbn; auto. destruct (apply_op x A); auto. Qed.
+Proof. revert A; induction l as [|x r IH]; intros A; cbn; auto; try (destruct (apply_op x A); auto). Qed.
 Lemma undl_undoable_list l A : undl apply_op undoable_op l A = undoable_list l A.
-Proof. revert A; induction l as [|x r IH]; intros A; cbn; auto. destruct (apply_op x A); rewrite ?IH; auto. Qed.
+Proof. revert A; induction l as [|x r IH]; intros A; cbn; auto; try (destruct (apply_op x A); rewrite ?IH; auto). Qed.
 Lemma apl_apply_ops l A : apl apply_top l A = apply_ops l A.
-Proof. revert A; induction l as [|x r IH]; intros A; cbn; auto. destruct (apply_top x A); auto. Qed.
+Proof. revert A; induction l as [|x r IH]; intros A; cbn; auto; try (destruct (apply_top x A); auto). Qed.
 Lemma undl_undoable_ops l A : undl apply_top undoable_top l A = undoable_ops l A.
-Proof. revert A; induction l as [|x r IH]; intros A; cbn; auto. destruct (apply_top x A); rewrite ?IH; auto. Qed.
+Proof. revert A; induction l as [|x r IH]; intros A; cbn; auto; try (destruct (apply_top x A); rewrite ?IH; auto). Qed.
 
 Lemma undo_top x A : wf_db A -> undoable_top x A = true ->
   exists x' B, reverse_top x = Ok x' /\ apply_top x A = Some B /\ apply_top x' B = Some A /\ wf_db B.
